@@ -112,10 +112,17 @@ func shortTok(t uint64) message.Token {
 	return b
 }
 
+// skipBefore: the next injected message carries an option with a registry-illegal value length (a 9-byte ETag, option 4) in
+// front of its Observe option (6): the decoder skips it - and must still decode Observe as Observe
+var skipBefore bool
+
 func (w *world) inject(tok uint64, code codes.Code, seq string, tag string, alias ...bool) {
 	m := pool.NewMessage(context.Background())
 	m.SetCode(code)
 	m.SetToken(tokBytes(tok))
+	if skipBefore {
+		m.SetOptionBytes(message.ETag, []byte{9, 9, 9, 9, 9, 9, 9, 9, 9})
+	}
 	if len(alias) > 0 && alias[0] {
 		m.SetToken(shortTok(tok))
 	}
@@ -125,7 +132,7 @@ func (w *world) inject(tok uint64, code codes.Code, seq string, tag string, alia
 	}
 	m.SetContentFormat(message.TextPlain)
 	m.SetBody(strings.NewReader(tag))
-	if len(tag) > 0 && tag[0]%2 == 0 {
+	if len(tag) > 0 && tag[0]%2 == 0 && !skipBefore {
 		// every other message carries an ETag of varying length (the observation remembers the latest one for its
 		// deregistration request)
 		m.SetOptionBytes(message.ETag, bytes.Repeat([]byte{tag[0]}, 1+int(tag[0])%8))
@@ -422,6 +429,17 @@ func runCase(t *testing.T, transport string, ops [][]string) []string {
 						}
 						w.mu.Unlock()
 					}()
+				case "arrivex":
+					// as `arrive`, with a skipped option in front of Observe
+					tok, _ := strconv.ParseUint(f[1], 10, 64)
+					code, _ := strconv.ParseUint(f[2], 10, 16)
+					at, _ := strconv.ParseInt(f[4], 10, 64)
+					if d := time.Duration(at) - time.Since(w.start); d > 0 {
+						time.Sleep(d)
+					}
+					skipBefore = true
+					w.inject(tok, codes.Code(code), f[3], f[5])
+					skipBefore = false
 				case "arrivez":
 					// the same bytes without the leading zeros: another token, nobody's
 					tok, _ := strconv.ParseUint(f[1], 10, 64)
@@ -461,6 +479,9 @@ func runCase(t *testing.T, transport string, ops [][]string) []string {
 						}
 						delete(w.deregTag, r.tok)
 						ctx, cancel := context.WithTimeout(context.Background(), time.Millisecond)
+						if len(f) == 4 && f[3] == "done" {
+							cancel() // `defer obs.Cancel(ctx)` after ctx has ended: the cancellation must still take effect
+						}
 						go func() {
 							// the deregistration request of every other registration is answered (2.05 without Observe); the
 							// others are left unanswered: Cancel returns by its context
@@ -554,7 +575,7 @@ func TestC08(t *testing.T) {
 		case len(f) == 1 && f[0] == "end":
 			flush(w)
 			fmt.Fprintln(w, "end")
-		case transport != "" && (f[0] == "reg" && (len(f) == 2 || len(f) == 3) || (f[0] == "arrive" || f[0] == "arrivez") && len(f) == 6 || (f[0] == "regabort" || f[0] == "cancel") && len(f) == 3):
+		case transport != "" && (f[0] == "reg" && (len(f) == 2 || len(f) == 3) || (f[0] == "arrive" || f[0] == "arrivez" || f[0] == "arrivex") && len(f) == 6 || (f[0] == "regabort" || f[0] == "cancel") && len(f) == 3 || f[0] == "cancel" && len(f) == 4):
 			ops = append(ops, f)
 		default:
 			flush(w)
